@@ -43,7 +43,8 @@ def assist(project, source, position, filename=None, debug=False):
         except SyntaxError:
             unfinished = True
     if unfinished:
-        iname = line.rpartition(' ')[2]
+        # (what stands behind the last blank, be it a space or a tab)
+        iname = re.search(r'[^ \t]*$', line).group()
         package, sep, prefix = iname.rpartition('.')
         if sep and not package.strip('.'):
             # only dots were cut off: `from ..x` lists the children of `..`
